@@ -46,7 +46,7 @@ def tok(k, n=0):
 def tokens(tier):
     if tier == 'quick':
         return [tok('abs', n) for n in (0, 1, 2, 3, 6, 7, -1)] + \
-               [tok('pct', n) for n in (0, 10, 33, 50, 100, 150)] + [tok('rest'), tok('bad', 0), tok('bad', 1)]
+               [tok('pct', n) for n in (0, 10, 33, 50, 100, 150, -5)] + [tok('rest'), tok('bad', 0)]
     return [tok('abs', n) for n in (0, 1, 2, 3, 4, 6, 11, 12, 13, -1)] + \
            [tok('pct', n) for n in (0, 1, 10, 29, 33, 50, 67, 100, 150, -5)] + \
            [tok('rest'), tok('bad', 0), tok('bad', 1), tok('bad', 2), tok('bad', 3)]
